@@ -10,18 +10,18 @@ mcvars == <<pend, comm, reps, meta, api, ev, g, hist>>
 Sig(k, m, f) == [k |-> k, m |-> m, f |-> f]
 
 \* ---- exhaustive: three keys, one container, two vectors, every matrix over the signature alphabet ----
-Q_Batches == {<<1, 1>>, <<1, 2>>, <<3, 1>>, <<2, 0>>}
+Q_Batches == {<<1, 2>>, <<3, 1>>, <<2, 0>>}
 Q_RepSeqs == {<<>>, <<1>>, <<2>>, <<1, 1>>}
-Q_SigAlphabet == {Sig(1, "m1", "ok"), Sig(1, "m1", "mal"), Sig(2, "m1", "ok"), Sig(3, "m1", "ok"), Sig(1, "m2", "ok"), Sig(1, "m1", "junk")}
+Q_SigAlphabet == {Sig(1, "m1", "ok"), Sig(1, "m1", "mal"), Sig(2, "m1", "ok"), Sig(3, "m1", "ok"), Sig(1, "m2", "ok")}
 Q_SignerSets == {{}, {"ALPHA"}}
 
 T_Batches == {<<1, 1>>, <<1, 2>>, <<2, 2>>, <<3, 1>>, <<2, 0>>, <<1, 3>>}
 T_RepSeqs == {<<>>, <<1>>, <<2>>, <<3>>, <<1, 1>>, <<2, 1>>, <<1, 2>>}
-T_SigAlphabet == Q_SigAlphabet \cup {Sig(2, "m1", "mal"), Sig(4, "m1", "ok")}
+T_SigAlphabet == Q_SigAlphabet \cup {Sig(1, "m1", "junk"), Sig(2, "m1", "mal"), Sig(4, "m1", "ok")}
 T_SignerSets == {{}, {"ALPHA"}, {"CMT"}}
 
 \* ---- long rosters: the two-byte counter crosses 127 / 255 / 256 (no signatures) ----
-L_Batches == {<<1, 1>>, <<1, 126>>, <<1, 127>>, <<1, 128>>, <<1, 129>>, <<1, 254>>, <<1, 255>>, <<1, 256>>, <<1, 257>>, <<1, 300>>, <<200, 2>>}
+L_Batches == {<<1, 1>>, <<1, 126>>, <<1, 127>>, <<1, 128>>, <<1, 129>>, <<1, 254>>, <<1, 255>>, <<1, 256>>, <<1, 257>>, <<1, 300>>, <<200, 2>>, <<7, 0>>}
 L_RepSeqs == {<<>>, <<1>>}
 
 \* ---- simulation ----
@@ -48,6 +48,11 @@ RandMat(c, k) == IF k = 0 THEN <<>> ELSE Append(RandMat(c, k - 1), RandVec(c, k 
 OneM(c) == {RandMat(c, IF RandomElement(1..5) = 1 THEN RandomElement(0..3) ELSE Len(reps[c]))}
 SimNext == NextOf(One, OneS, OneM) /\ g' = GNext(g, ev') /\ hist' = Append(hist, [ev' EXCEPT !.ntf = <<>>])
 SimSpec == MCInit /\ [][SimNext]_mcvars
+
+\* long rosters are explored to a bounded number of calls (breadth-first, so the bound is exact)
+LongNext == Next /\ g' = GNext(g, ev') /\ hist' = Append(hist, ev'.act)
+LongSpec == MCInit /\ [][LongNext]_mcvars
+LongBound == Len(hist) <= 3
 
 MCView == <<pend, comm, reps, meta, g>>
 
